@@ -199,6 +199,9 @@ class G(object):
             # a list that is empty for some records and not for others
             return ['cond', self.e_bool(1), self.e_list(0), ['list', []]] if self.rng.random() < 0.5 else ['cond', self.e_bool(1), ['list', []], self.e_list(0)]
         n = self.rng.choice([0, 1, 2, 2, 3])
+        if d > 0 and not getattr(self, 'hashable_only', False) and self.rng.random() < 0.12:
+            # a list whose elements are lists themselves (pairs, an empty one among them): under UNNEST each of them is ONE value of the output record
+            return ['list', [self.rng.choice([['list', [self.e_str(0), self.e_int(0)]], ['list', []], ['split', self.e_str(0), ','], ['list', [self.e_str(0)]]]) for _ in range(max(1, n))]]
         return ['list', [self.e_str(d) if self.rng.random() < 0.6 else self.e_int(d) for _ in range(n)]]
 
     def e_any(self, d=2, allow_list=True):
@@ -299,6 +302,7 @@ class G(object):
         if 'join' in features and self.B is not None:
             q['join'] = self.gen_join(strict_ok='strict' in features)
         hashable_only = 'distinct' in features or 'count' in features
+        self.hashable_only = hashable_only      # DISTINCT hashes the output record: list-valued fields are outside its domain
         if 'except' in features and not q['join']:
             cols = list(range(max(1, self.wa)))
             rng.shuffle(cols)
@@ -331,6 +335,10 @@ class G(object):
         if 'top' in features:
             q['top'] = rng.randrange(0, len(self.A) + 2)
             q['top_kw'] = rng.choice(['top', 'limit'])
+            if rng.random() < 0.08:
+                # TOP n and LIMIT m in one query: LIMIT decides (whichever is smaller)
+                q['top_kw'] = 'limit'
+                q['top_ignored'] = rng.randrange(0, len(self.A) + 3)
         q['bare'] = rng.random() < 0.5      # clause-level expressions written without enclosing parentheses
         return q
 
